@@ -31,3 +31,8 @@ import OpfVerif.Props.C08Symm
 import OpfVerif.Props.C08Self
 import OpfVerif.Props.C08Metric
 import OpfVerif.Props.C08Nonneg
+import OpfVerif.Props.C12Arcs
+import OpfVerif.Props.C12Pdf
+import OpfVerif.Props.C14
+import OpfVerif.Props.C13
+import OpfVerif.Props.C04
